@@ -91,8 +91,9 @@ LEAF = [
     "{{ a[s] }}{{ xs[y] }}{{ hs[y].k }}{{ a[x][y] }}{% assign key = 'k' %}{{ a[key] }}{% for e in hs %}{{ e[key] }}{% endfor %}",
     "{% for e in xs %}{% render 'brk', v: e %}|{% include 'brk', v: e %}{% endfor %}{% render 'brk', v: 2 %}",
     "{% doc -%} usage: {% if %} {% form %} {% enddoc %}{%- doc %}{% else %}{% enddoc -%}{{ x }}{% comment -%}{% endif %}{%- endcomment %}",
+    "{% comment disabled: for now %}{% if x %}{% nosuchtag a %}{% endfor %}{% endcomment %}{{ x }}{% comment a %}{% when 1 %}{% endcomment %}",
 ]
-assert len(WRAP) == 16 and len(LEAF) == 42 and len(WRAP2) == 5   # the bounds in mk_condition's contract
+assert len(WRAP) == 16 and len(LEAF) == 43 and len(WRAP2) == 5   # the bounds in mk_condition's contract
 
 # data sets: nothing defined / ordinary / odd types
 DATA = [
@@ -164,7 +165,7 @@ def mk_condition(name, check, skip=None):
 
     def f(w1: int, leaf: int) -> bool:
         """
-        pre: 0 <= w1 <= 15 and 0 <= leaf <= 41
+        pre: 0 <= w1 <= 15 and 0 <= leaf <= 42
         post: _
         """
         if excluded(name, locals()):
@@ -186,7 +187,7 @@ def outcome(thunk):
         return ("other", type(e).__name__)
 
 
-BOUNDS = "corpus of %d templates = 5 outer constructs x 16 constructs x 42 leaves (harness/corpus.py), 4 fixed data sets" % SIZE
+BOUNDS = "corpus of %d templates = 5 outer constructs x 16 constructs x 43 leaves (harness/corpus.py), 4 fixed data sets" % SIZE
 
 __all__ = ["PARTIALS", "WRAP", "WRAP2", "LEAF", "DATA", "data", "source", "make_env", "template", "Mode",
            "NW2", "NW1", "NLEAF", "NDATA", "SIZE"]
